@@ -10,7 +10,9 @@
 (***************************************************************************)
 EXTENDS MC_Convert, Json, IOUtils
 VARIABLE l
-TraceLog == ndJsonDeserialize(IOEnv.TRACE)
+(* the log is read once (initial predicate) and kept in a TLC register;   *)
+(* a plain definition is re-evaluated, i.e. the file re-read, per state   *)
+TraceLog == TLCGet(7)
 
 Step(ev) == obs' = [a |-> ev.a, arg |-> [b |-> ev.b], exp |-> [x |-> 0]]
 
@@ -20,7 +22,7 @@ Matches(ev) ==
     [] ev.a = "text" -> TextOK(ev.arg.dst, ev.arg.chars, ev.arg.base, LiftObs(ev.obs))
     [] OTHER         -> FALSE          \* Crash / Hang / Missing: "never faults"
 
-TraceInit == l = 1 /\ Init
+TraceInit == TLCSet(7, ndJsonDeserialize(IOEnv.TRACE)) /\ l = 1 /\ Init
 TraceNext ==
   /\ l <= Len(TraceLog)
   /\ l' = l + 1
